@@ -66,14 +66,16 @@ Theorem C10_replay :
 Proof. exact @replay_deterministic. Qed.
 Print Assumptions C10_replay.
 
-(* The remaining invariants (row / column permutations, multiset preservation,
-   rogue partition, gap-only and substitution-only edits) are not proved for
-   the model in this revision: the model reproduces the code exactly on every
-   generated (seed, operation) pair and Corr/C10.v spec_check judges each
-   observed result against the promised invariant (bounded validation). *)
-Definition C10_shuffle_is_row_permutation_statement : Prop :=
+(* ShuffleSequences only re-orders the rows, whatever the tape *)
+Theorem C10_shuffle_is_row_permutation :
   forall rs t out r, tape_ok t -> shuffle_sequences rs t = Some (out, r) -> Permutation.Permutation out rs.
+Proof. exact shuffle_is_row_permutation. Qed.
+Print Assumptions C10_shuffle_is_row_permutation.
 
+(* The remaining invariants (column multisets of the site shuffles, rogue partition, gap-only and
+   substitution-only edits) are not proved for the model in this revision: the model reproduces the
+   code exactly on every generated (seed, operation) pair and Corr/C10.v spec_check judges each
+   observed result against the promised invariant (bounded validation). *)
 Example C10_nonvacuous :
   let rs := [([x61], [x41; x43; x47]); ([x62], [x54; x54; x41])] in
   build_bootstrap 1 rs [2 * 2 ^ 32; 0; 1 * 2 ^ 32] =
